@@ -55,7 +55,7 @@ func RunCLIArgs(w *simfs.World, flagArgs []string, stdin string) (CLIResult, err
 		if err := os.WriteFile(full, f.Data, 0o644); err != nil {
 			return CLIResult{}, err
 		}
-		mt := simfs.Base.Add(time.Duration(f.Tick) * time.Minute)
+		mt := simfs.Base.Add(time.Duration(f.Tick) * simfs.TickUnit)
 		os.Chtimes(full, mt, mt)
 		before[p] = st{mt, f.Data}
 	}
